@@ -56,6 +56,14 @@ Definition load_fmt (fmt : nat) (f : file) : res (mesh Z) :=
   | 3%nat, FB s => load_mesh Z ceqz s
   | _, _ => Throw
   end.
+Definition reload_fmt (fmt : nat) (g0 : list (V3 Z)) (f : file) : res (mesh Z) :=
+  match fmt, f with
+  | 0%nat, FT s => reload_tri Z ceqz g0 s
+  | 1%nat, FT s => reload_off Z ceqz g0 s
+  | 2%nat, FT s => reload_bnd Z ceqz g0 s
+  | 3%nat, FB s => reload_mesh Z ceqz g0 s
+  | _, _ => Throw
+  end.
 Definition outFile (f : file) : wire :=
   match f with FT s => flat_map outTok s | FB s => flat_map outB s end.
 
@@ -140,6 +148,19 @@ Definition run_c15 (w : wire) : wire :=
                        | Fail => [33] | Throw => [32]
                        end
                    | _ => [30]
+                   end)
+  (* the same file loaded into a fresh Mesh and into a Mesh that has already loaded another file *)
+  | 7 :: w => run_dec (do fmt <- getN; do flags <- getN; do id <- getN; do m1 <- getMeshIn; do m2 <- getMeshIn;
+                       do tb <- getTable; ret (fmt, flags, m1, m2, tb)) w
+                (fun '(fmt, flags, (vs1, ts1), (vs2, ts2), tb) =>
+                   let sv := fun vs ts => rbind (mkmesh flags vs ts) (save_fmt fmt (lookup tb)) in
+                   match sv vs1 ts1, sv vs2 ts2 with
+                   | Ok f1, Ok f2 =>
+                       match load_fmt fmt f2, rbind (load_fmt fmt f1) (fun a => reload_fmt fmt (gv a) f2) with
+                       | Ok a, Ok b => 0 :: dump a ++ 0 :: dump b
+                       | _, _ => [32]
+                       end
+                   | _, _ => [32]
                    end)
   | _ => [-1]
   end.
